@@ -9,7 +9,12 @@ TRUST = ("Trusted base: go/parser, go/types, go/ssa (golang.org/x/tools v0.29.0)
          "conditions; integer overflow ignored for sizes; the standard-library effect table of the effects engine; "
          "the Go compiler's prove pass where the bce rule is used; the oracle tables in sa/rules/refdata.go; the "
          "alignment shape invariant (every row has the cached length) wherever the bounds engine unifies len(row) with Length(). "
-         "Only the structural clauses named in level_claimed.text are decided, not the behaviour as a whole.")
+         "Only the structural clauses named in level_claimed.text are decided, not the behaviour as a whole. "
+         "When a pass over the functions as written leaves an obligation open, the same rules are re-run on inlined views "
+         "(sa/iview: copies of the SSA with calls to private helpers of the package expanded, jumps threaded, go/method-value "
+         "closures converted, field-only structs split; each view re-validated) and a rule/function group is accepted from that "
+         "pass only if it is fully discharged there with at least as many obligations; this relies on the views being "
+         "meaning-preserving copies (DESIGN.md section 2, E9).")
 
 # id -> (technique, level text, design ref)
 CLAIMED = {
@@ -61,7 +66,9 @@ def main():
              "kind_free_text": "repository-specific static analyser on go/packages + go/types + go/ssa: constant-table evaluation (E1), "
                                "linear bounds with Fourier-Motzkin entailment over dominating/path conditions (E2), compiler prove-pass residual (E2b), "
                                "write-effect/ownership summaries (E3), field-write ownership and store pairing (E4), determinism rules (E5), "
-                               "goroutine/WaitGroup/channel/lockset rules (E6), EOF steady-state constant propagation over token loops (E7), small value-flow rules (E8)"},
+                               "goroutine/WaitGroup/channel/lockset rules (E6), EOF steady-state constant propagation over token loops (E7), small value-flow rules (E8), "
+                               "interprocedural views (E9): call frames, event words, branch facts, decision tables, path classes over atoms, and inlined views "
+                               "of the SSA (inlining of private helpers, jump threading, closure conversion, scalar replacement, mem2reg) used in a second pass"},
         ],
         "checks": checks,
         "not_applicable": na,
